@@ -677,10 +677,20 @@ def gen_sampled(r, cid, nops, opts):
         maxc = r.pick([I64MAX, I64MAX - r.below(5), I64MIN, I64MIN + r.below(5), -10, 10])
     else:
         maxc = r.pick([0, 1, 100, 1 << 40, -5, r.rng(0, 1000)])
-    samples = r.rng(0, 6)
+    # one case in five tracks many keys (above any small-table threshold in `fill_sample` / the cost map: 33..90 keys,
+    # sample sizes up to 48), after a burst of increments that makes most of them tracked  (round 9, C20h)
+    big = (not extreme) and r.chance(1, 5)
+    samples = r.rng(0, 48) if big else r.rng(0, 6)
     lines = ["case %d sampled max=%d samples=%d" % (cid, maxc, samples)]
-    U = r.rng(1, 6)
+    U = r.rng(33, 90) if big else r.rng(1, 6)
     costs, used, mx = {}, 0, maxc
+    if big:
+        for kk in range(1, U + 1):
+            if r.chance(5, 6):
+                c = r.rng(0, 50)
+                used, costs[kk] = used + c, c
+                lines.append("sinc %d %d" % (kk, c))
+        lines.append("fill")
 
     def cost():
         if extreme and r.chance(1, 3):
@@ -731,6 +741,8 @@ def gen_sampled(r, cid, nops, opts):
         elif name == "fill":
             n = r.rng(0, 7)
             lines.append(("fill " + " ".join("%d:%d" % (100 + i, r.rng(0, 9)) for i in range(n))).strip())
+    if big:
+        lines.append("fill 100:1")
     lines.append("end")
     return lines
 
